@@ -25,10 +25,14 @@ Ty(n) == CASE n = "i8" -> IntT(1, TRUE) [] n = "u8" -> IntT(1, FALSE)
            [] n = "i64" -> IntT(8, TRUE) [] n = "u64" -> IntT(8, FALSE)
            [] n = "bool" -> BoolT [] n = "char" -> CharT [] n = "f32" -> FloatT(4) [] n = "f64" -> FloatT(8)
            [] n = "void" -> VoidT [] n = "p_i32" -> PtrT(I32)
+           [] n = "cf" -> [k |-> "complex", size |-> 8] [] n = "cd" -> [k |-> "complex", size |-> 16]
+           [] n = "ld" -> [k |-> "ldouble"]
            [] n = "sA" -> [k |-> "struct", tag |-> "sA", fields |-> <<IntT(1, TRUE), I32>>]
            [] n = "sB" -> [k |-> "struct", tag |-> "sB", fields |-> <<I64, I64, I64>>]
            [] n = "sE" -> [k |-> "struct", tag |-> "sE", fields |-> <<IntT(2, TRUE), IntT(1, FALSE)>>]
-RtNames == IntNames \cup {"bool", "char", "f32", "f64", "void", "p_i32", "sA", "sB", "sE"}
+RtNames == IntNames \cup {"bool", "char", "f32", "f64", "void", "p_i32", "sA", "sB", "sE", "cf", "cd", "ld"}
+PCx(x, y) == [k |-> "pycomplex", re |-> [d |-> PFl(x).d, f |-> PFl(x).f, fd |-> PFl(x).fd],
+              im |-> [d |-> PFl(y).d, f |-> PFl(y).f, fd |-> PFl(y).fd]]
 
 \* value classes of what a Python function (body / onerror) may return for result type n
 Val(n, cls) ==
@@ -45,6 +49,10 @@ Val(n, cls) ==
                           [] cls = "ovf" -> PBytes(<<1, 1>>) [] cls = "badtype" -> PI(1))
       [] n \in {"f32", "f64"} -> (CASE cls = "ok" -> PFl(3) [] cls = "ok2" -> PI(7) [] cls = "err" -> PFl(2)
                                     [] cls = "ovf" -> [PI(5) EXCEPT !.flovf = TRUE, !.fl = <<>>] [] cls = "badtype" -> PBytes(<<1>>))
+      [] n \in {"cf", "cd"} -> (CASE cls = "ok" -> PCx(3, 2) [] cls = "ok2" -> PFl(3) [] cls = "err" -> PCx(1, 3)
+                                  [] cls \in {"ovf", "badtype"} -> PBytes(<<1>>))
+      [] n = "ld" -> (CASE cls = "ok" -> PFl(3) [] cls = "ok2" -> PI(7) [] cls = "err" -> PFl(2)
+                        [] cls = "ovf" -> [PI(5) EXCEPT !.flovf = TRUE, !.fl = <<>>] [] cls = "badtype" -> PBytes(<<1>>))
       [] n = "void" -> (CASE cls \in {"ok", "ok2", "err"} -> PNone [] cls \in {"ovf", "badtype"} -> PI(0))
       [] n = "p_i32" -> (CASE cls \in {"ok", "err"} -> CPtr(PtrT(I32), 1) [] cls = "ok2" -> CPtr(PtrT(VoidT), 0)
                            [] cls = "ovf" -> CPtr(PtrT(IntT(2, TRUE)), 1) [] cls = "badtype" -> PI(0))
@@ -69,9 +77,28 @@ AllCfgs == {[mode |-> m, rtn |-> n, rt |-> Ty(n), bcls |-> b, ocls |-> o,
               m \in {"callback", "extern"}, n \in RtNames, b \in BodyClasses,
               h \in BOOLEAN, o \in OnerrClasses}
 \* (a short list / dict initializer exists only for struct results)
-MCCfgs == {c \in AllCfgs : ~(c.rtn = "void" /\ c.haserr) /\ (c.bcls \in {"short", "dshort"} => c.rtn \in StructRts)}
+\* (libffi has no complex types: ffi.callback() refuses them; extern "Python" supports them)
+MCCfgs == {c \in AllCfgs : /\ ~(c.rtn = "void" /\ c.haserr) /\ (c.bcls \in {"short", "dshort"} => c.rtn \in StructRts)
+                           /\ ~(c.mode = "callback" /\ c.rtn \in {"cf", "cd"})}
 \* a slice of the product, enough to reject the broken variants quickly
 SmallCfgs == {c \in MCCfgs : c.rtn \in {"i8", "u16", "sA"}}
+
+\* ---- the argument slots of extern "Python" (Call.tla section 8), every signature of <= 3 parameters
+SlotTs == {IntT(1, TRUE), I32, I64, FloatT(4), FloatT(8), [k |-> "complex", size |-> 8],
+           [k |-> "complex", size |-> 16], [k |-> "ldouble"], [k |-> "struct", tag |-> "s", fields |-> <<I64, I64>>]}
+SlotSigs == UNION {[1..n -> SlotTs] : n \in 0..3}
+DC == [k |-> "complex", size |-> 16]
+HasDC(ts) == \E i \in 1..Len(ts) : ts[i] = DC
+DCNotLast(ts) == \E i \in 1..(Len(ts) - 1) : ts[i] = DC
+\* what the code does is right for every signature without a double _Complex parameter ...
+ASSUME \A ts \in SlotSigs : ~HasDC(ts) => (SlotsExact(ts, "impl") /\ SlotsInBounds(ts, "impl"))
+\* ... passing everything wider than a slot by reference would be right for all ...
+ASSUME \A ts \in SlotSigs : SlotsExact(ts, "wide") /\ SlotsInBounds(ts, "wide")
+\* ... and the OPEN FINDING, reproduced by the model: a 16-byte double _Complex is stored by value
+\* into its 8-byte slot; the next argument's store overwrites its imaginary part, and as the
+\* last argument it is written 8 bytes beyond `char a[]`
+ASSUME \A ts \in SlotSigs : DCNotLast(ts) => ~SlotsExact(ts, "impl")
+ASSUME \A ts \in SlotSigs : (Len(ts) > 0 /\ ts[Len(ts)] = DC) => ~SlotsInBounds(ts, "impl")
 
 \* expected classification of the case at this scale, for the replayer's cross-check
 Kind(c) == IF c.body = "ret" /\ ConvRes(c.rt, c.retv).ok THEN "result"
